@@ -118,3 +118,43 @@ def every_phase_handles_every_token_kind():
     return rec("C03/dispatch/every-phase-handles-every-token-kind", ok, n,
                "each of the 23 insertion-mode classes defines a handler for all seven token kinds; every entry of its "
                "start/end tag tables is callable and the tables have a default", witness=bad[:5] or [len(P._phases)] if not ok else None)
+
+
+PRE_BODY_PHASES = ["InitialPhase", "BeforeHtmlPhase", "BeforeHeadPhase", "InHeadPhase", "InHeadNoscriptPhase", "AfterHeadPhase"]
+
+
+@ground("C03")
+def eof_before_the_body_is_always_reprocessed():
+    """skeleton invariant, EOF part: in the insertion modes that precede the body element, processEOF hands the EOF on
+    (returns True on every path), so that mainLoop's reprocessing chain reaches a mode in which html, head and body
+    exist.  Decided on the AST: every path through the method ends in `return True`."""
+    import ast
+    from . import parse_repo
+    tree, _ = parse_repo("html5lib/html5parser.py")
+    classes = {n.name: n for n in ast.walk(tree) if isinstance(n, ast.ClassDef)}
+
+    def always_true(stmts):
+        """every path through stmts returns the constant True"""
+        for st in stmts:
+            if isinstance(st, ast.Return):
+                return isinstance(st.value, ast.Constant) and st.value.value is True
+            if isinstance(st, ast.If):
+                if always_true(st.body) and st.orelse and always_true(st.orelse):
+                    return True
+                if any(isinstance(n, ast.Return) for b in (st.body, st.orelse) for s in b for n in ast.walk(s)):
+                    return False            # a return on some path that is not `return True`, or a partial one
+            if isinstance(st, (ast.Raise,)):
+                return False
+            if isinstance(st, (ast.For, ast.While, ast.Try, ast.With)):
+                if any(isinstance(n, ast.Return) for n in ast.walk(st)):
+                    return False
+        return False
+    bad = []
+    for name in PRE_BODY_PHASES:
+        c = classes.get(name)
+        fn = None if c is None else next((f for f in c.body if isinstance(f, ast.FunctionDef) and f.name == "processEOF"), None)
+        if fn is None or not always_true(fn.body):
+            bad.append(name)
+    return rec("C03/skeleton/eof-before-the-body-is-reprocessed", not bad, len(PRE_BODY_PHASES),
+               "processEOF of the six insertion modes that precede the body returns True on every path (the EOF is reprocessed "
+               "until head and body have been implied)", witness=bad or None)
